@@ -505,11 +505,13 @@ Section LBound.
   Lemma LB_empty B : LB B empty_lcoll.
   Proof. intros m E. discriminate. Qed.
 
-  Lemma lstep_LB clock ts key c B l : RepL compact clock l -> LB B l -> 0 <= B ->
+  Lemma lstep_LB clock ts key c B l : RepL compact clock l -> LB B l -> 0 <= B -> (c = LCfixkey -> InSpace l) ->
     LB (B + max_batch_num) (fst (MapL.lstep compact ts key c l)).
   Proof.
-    intros R A PB. assert (Keep : LB (B + max_batch_num) l) by (eapply LB_mono; [|exact A]; unfold max_batch_num; lia).
-    destruct c as [tail vs|tail|i x|start stop| |]; cbn [MapL.lstep]; try exact Keep.
+    intros R A PB FK. assert (Keep : LB (B + max_batch_num) l) by (eapply LB_mono; [|exact A]; unfold max_batch_num; lia).
+    assert (FX : c = LCfixkey -> LB (B + max_batch_num) (fst (MapL.lstep compact ts key c l)))
+      by (intros ->; rewrite (lfixkey_noop compact clock ts key l R (FK eq_refl)); exact Keep).
+    destruct c as [tail vs|tail|i x|start stop| | |]; cbn [MapL.lstep]; try exact Keep; try (apply FX; reflexivity).
     - destruct (too_many vs) eqn:TM; [exact Keep|]. destruct (negb (key_ok key)); [exact Keep|].
       destruct vs as [|x0 r0] eqn:EV; [exact Keep|]. rewrite <- EV. rewrite <- EV in TM.
       match goal with |- context [if ?b then (l, RErr) else _] => destruct b end; [exact Keep|].
